@@ -292,7 +292,7 @@ def default_limits(ctx, prog, rule):
         recs = [record_of(R.operand(a)) for a in t["args"]]
         flds = [strip(R.operand(a)) for a in t["args"]]
         desc = str(recs)
-        ok = recs == [["ColorRed"], ["ColorGreen"], ["ColorBlue"]] and all(x[0] == "field" and x[2] == "data_type" for x in flds)
+        ok = recs == [["ColorRed"], ["ColorGreen"], ["ColorBlue"]] and all((x[0] == "field" and x[2] == "data_type") or any(y[0] == "field" and y[2] == "data_type" for y in leaves(x)) for x in flds)
     ctx.ob(rule, "default-limits/color-arguments", ok, "ColorLimits::from_record_types receives the data types of the records %s (must be ColorRed, ColorGreen, ColorBlue in this order)" % desc)
     # IntensityLimits::from_record_type(&rec.data_type) with rec = the Intensity record (inside a map closure or, after
     # combinator expansion, in the function itself)
